@@ -13,6 +13,12 @@ def ctc_models(scope, seed):
     names = ['A', 'B', 'C']
     root = {'name': 'R', 'relations': [{'min': 0, 'max': 1, 'children': [{'name': n, 'relations': []}]} for n in names]}
     trees = list(M.ctc_trees(names, 1))
+    # every operator over plain / negated names: contains all documented simple forms and their near misses
+    lits = names + [['NOT', n] for n in names]
+    trees += [[op, a, b] for op in M.LOGICAL for a in lits for b in lits]
+    trees += [['NOT', [op, a, b]] for op in ('AND', 'OR') for a in lits[:4] for b in lits[:4]]
+    trees += [['OR', ['OR', ['AND', 'A', 'B'], 'C'], 'A'], ['OR', 'C', ['OR', 'B', ['AND', 'A', 'B']]],
+              ['AND', ['OR', ['AND', 'A', 'B'], ['AND', 'B', 'C']], ['OR', 'A', ['NOT', ['AND', 'B', 'C']]]]]
     if scope == 'quick':
         d2 = list(M.ctc_trees(names, 2))
         trees += rng.sample(d2, 1500)
